@@ -480,10 +480,11 @@ impl<'s> ProguardMapper<'s> {
 
     /// Remaps a complete Java StackTrace.
     pub fn remap_stacktrace_typed<'a>(&'a self, trace: &StackTrace<'a>) -> StackTrace<'a> {
+        // A throwable whose class is not in the mapping is kept as it is.
         let exception = trace
             .exception
             .as_ref()
-            .and_then(|t| self.remap_throwable(t));
+            .map(|t| self.remap_throwable(t).unwrap_or_else(|| t.clone()));
 
         let frames =
             trace
